@@ -106,7 +106,7 @@ PROPS = {
                 units=["task"], level="proof", assumptions=TASK_ASSUME,
                 explanation="inductive invariant I1 (live children == the one child owned by the state) assumed at entry and proved at every exit of both select arms of the job task, for every control, every child behaviour and every failure of kill/wait/spawn; CommandState::{spawn,wait,reset} bodies proved against the contracts the arms rely on"),
     "C06": dict(claim='Contracts on the graceful arms, Timer and PriorityReceiver::recv proved by Verus for all grace values, timings and queue contents; restart-exactly-once clauses on the continuation arms', trusted="environment stand-ins in prelude/task_env.rs (process-wrap child, tokio select/mpsc, user callbacks, clock), flag_env.rs; rewrite rules of the extractor; listed per run in evidence coverage.trusted_base and assumptions",
-                units=["task"], level="proof", assumptions=TASK_ASSUME),
+                units=["task", "actionloop"], level="proof", assumptions=TASK_ASSUME + ["the library's own graceful quit (action::worker) is a caller of Job::stop_with_signal: its per-job quit task is proved (unit actionloop) to send the graceful stop with the requested signal and grace and then a NORMAL delete, which the job task holds back until the process has ended"]),
     "C07": dict(claim='Ticket ledger (every received flag raised or parked, gone raised at task end) proved at every exit of both handlers and the loop shell incl. all failure exits; Flag wakes every registered waiter', trusted="environment stand-ins in prelude/task_env.rs (process-wrap child, tokio select/mpsc, user callbacks, clock), flag_env.rs; rewrite rules of the extractor; listed per run in evidence coverage.trusted_base and assumptions",
                 units=["task", "flag"], level="proof", assumptions=TASK_ASSUME + [
         "Flag::poll and Flag::raise are each treated as atomic (no interleaving inside one call; Relaxed orderings and the register-then-recheck argument are not verified)",
@@ -187,14 +187,14 @@ PROPS = {
                              "`for` loops are desugared mechanically (R16) over a stand-in iterator yielding the Vec's elements in order; HashSet iteration order is arbitrary (vx_elems)"],
                 claim="fs::worker (whole function: outer loop, diff loops, unwatch/watch loops, error loops) proved by Verus against an abstract watcher: the worker's record always mirrors the active watcher, an empty configuration releases the watcher, after a fault-free iteration the registered map equals the configured set with its modes and kind, every failed call is reported once per named path and never ends the worker; ConfigWatched::next/Config::signal_change proved not to lose a change between two waits (logical-clock model); unbounded",
                 trusted="stand-ins in prelude/fswatch_env.rs (abstract notify watcher, channels, configuration reads, HashSet, iterator)"),
-    "C05": dict(units=["cliaction", "task"], level="proof",
+    "C05": dict(units=["cliaction", "task", "handlerjobs"], level="proof",
                 assumptions=TASK_ASSUME + ["the CLI action handler is decided piecewise: the on-busy block (is_running x mode -> controls sent), the queue-mode follow-up task, the --restart/--signal shorthands and the start-up event; what the job does with each control is units task's contracts (C04/C06/C09); the handler's other parts (spawn hook, printing, delay_run sleep, --once) are not decided",
                              "the closure handed to job.run (screen clearing, banner) is replaced by a marker by exact token match",
                              "queue mode: `queued` is cleared after the follow-up run's start was processed; a change landing between that start and the clearing sees is_running && queued and does nothing. Whether such a change can be left without a later run is an interleaving of three tasks that contracts on these blocks cannot decide; a timing sweep of the real binary (200 trials around the boundary) did not produce it: NOT decided, not claimed either way",
                              "clap parsing (conflicts_with between --restart and --on-busy-update) not decided"],
                 claim="Verus proves the on-busy block sends exactly the documented controls per (running, mode): idle -> Start; do-nothing -> nothing; signal -> the configured signal only; restart -> graceful restart with the stop signal/timeout; queue -> at most one follow-up task, which waits for the current run to end and then starts one run; --signal/-r select the mode; start-up event sent iff not --postpone (structural); non-overlap is C04's invariant (same obligations)",
                 trusted="stand-ins in prelude/cliaction_env.rs (Job handle as a control log, atomics), prelude/task_env.rs"),
-    "C08": dict(units=["actionloop", "latejoin", "maintask", "cliaction", "task", "flag", "sources"], level="proof",
+    "C08": dict(units=["actionloop", "latejoin", "maintask", "cliaction", "task", "flag", "sources", "handlerjobs"], level="proof",
                 fallback=[replay_engine("lib", "graceful_quit_three_stubborn_jobs_within_grace", "C08.bounded.graceful_quit_three_stubborn_jobs_within_grace",
                                         "3 jobs that ignore SIGTERM, quit_gracefully(Terminate, 1.5 s) on the real library: the main task ends within grace + 1.2 s, not before the grace, and no process survives"),
                           replay_engine("lib", "graceful_quit_after_the_handler_deleted_the_job", "C08.bounded.graceful_quit_after_the_handler_deleted_the_job",
@@ -258,6 +258,15 @@ PROPS["C02"]["thorough_engines"] = [replay_engine("lib", "event_stream_c02", "C0
     _STREAM + "a batch without an urgent event is never handed over before the throttle has passed since its earliest event was sent (lower bound only; the upper bound is timing-sensitive and left to the proof)")]
 PROPS["C15"]["thorough_engines"] = [replay_engine("lib", "event_stream_c15", "C15.bounded.each_filter_error_reaches_the_error_handler_once",
     _STREAM + "each filter error reaches the error handler exactly once and later events are still processed")]
+_SEQ = "real supervisor, real processes: 24 seeded settled sequences of 12 controls and 24 seeded bursts of 14 controls over {start, stop, restart, try-restart, their graceful variants, signal}, children that live long / exit after 50 ms / ignore SIGTERM: "
+PROPS["C04"]["thorough_engines"] = [replay_engine("supervisor", "control_sequences_c04", "C04.bounded.no_two_processes_of_one_job_at_any_sampled_moment",
+    _SEQ + "at every spawn (spawn hook) and at every 1 ms sample no process announced earlier for the same job is still in the process table")]
+PROPS["C09"]["thorough_engines"] = PROPS["C09"]["thorough_engines"] + [replay_engine("supervisor", "control_sequences_c09", "C09.bounded.state_and_spawn_count_follow_the_documented_semantics",
+    _SEQ + "after each awaited control of a settled sequence the job is running / not running and has spawned as many processes as a reference model of the documented semantics says")]
+PROPS["C10"]["thorough_engines"] = [replay_engine("supervisor", "control_sequences_c10", "C10.bounded.normal_controls_run_in_send_order_once",
+    _SEQ + "the normal-priority marker controls interleaved with a burst run in send order, each once (high/urgent overtaking is not observable through the public API: proof only)")]
+PROPS["C05"]["thorough_engines"] = [script_engine("cli_on_busy.py", "cli_on_busy", "C05.bounded.one_change_mid_run_in_each_mode",
+    "the real binary, started through a first change (--postpone), one change 1 s into a 3 s run in each --on-busy-update mode (do-nothing, queue, queue with a second change during the queued run, restart, signal with --signal SIGUSR1): the start/end/term/usr1 history of the command is the documented one and runs never overlap")]
 PROPS["C11"]["thorough_engines"] = [replay_engine("ignorefiles", "globset_rule_bounded", "C11.bounded.verdict_is_the_documented_rule",
     "the real GlobsetFilterer on 4 configurations x all events of 1..2 paths over 7 file names x 3 file types (1848 events): the verdict equals the documented rule; watched-file and path-less events pass")]
 PROPS["C12"]["thorough_engines"] = [script_engine("cli_flag_sources.py", "cli_flag_sources", "C12.bounded.flags_remove_exactly_the_named_sources",
